@@ -271,7 +271,11 @@ func contextRefName(contextOfCall protoreflect.Descriptor, refElement protorefle
 	if contextOfCall.ParentFile().Package() != refElement.ParentFile().Package() {
 		// if the thing the field references is in a different package, then the
 		// full reference is used
-		return string(refElement.FullName()), nil
+		full := string(refElement.FullName())
+		if packageScopeCaptures(contextOfCall.ParentFile(), full) {
+			return "." + full, nil
+		}
+		return full, nil
 	}
 
 	refPath := pathToPackage(refElement)
@@ -297,6 +301,31 @@ func contextRefName(contextOfCall protoreflect.Descriptor, refElement protorefle
 	}
 
 	return strings.Join(refPath, "."), nil
+}
+
+// packageScopeCaptures reports whether a full name written without a leading dot
+// in the given file would be resolved inside one of the file's enclosing package
+// scopes instead of from the root: protobuf looks the first component up in
+// acme.j5.v1, acme.j5 and acme before the root, so in package acme.j5.v1 the name
+// j5.ext.v1.message means acme.j5.ext.v1.message. A scope exists when it is a
+// prefix of the file's own package or of the package of one of its imports.
+func packageScopeCaptures(file protoreflect.FileDescriptor, full string) bool {
+	first, _, _ := strings.Cut(full, ".")
+	packages := []string{string(file.Package())}
+	imports := file.Imports()
+	for i := 0; i < imports.Len(); i++ {
+		packages = append(packages, string(imports.Get(i).Package()))
+	}
+	enclosing := strings.Split(string(file.Package()), ".")
+	for i := len(enclosing); i >= 1; i-- {
+		scope := strings.Join(enclosing[:i], ".") + "." + first
+		for _, pkg := range packages {
+			if pkg == scope || strings.HasPrefix(pkg, scope+".") {
+				return true
+			}
+		}
+	}
+	return false
 }
 
 // relativeNameIsShadowed applies protobuf's name resolution to a relative type
